@@ -15,11 +15,11 @@ macro_rules! harness_table {
 }
 #[macro_export]
 macro_rules! harness_table_should_panic {
-    ($tname:ident : $( $name:ident ),* $(,)?) => {
+    ($tname:ident : $( $name:ident $( [unwind $u:literal] )? ),* $(,)?) => {
         #[cfg(kani)]
         mod kani_should_panic {
             use super::*;
-            $( #[kani::proof] #[kani::should_panic] fn $name() { let mut s = Src::new(); let _ = super::$name(&mut s); } )*
+            $( #[kani::proof] #[kani::should_panic] $( #[kani::unwind($u)] )? fn $name() { let mut s = Src::new(); let _ = super::$name(&mut s); } )*
         }
         #[cfg(not(kani))]
         pub const $tname: &[(&str, fn(&mut Src) -> R)] = &[ $( (stringify!($name), $name as fn(&mut Src) -> R) ),* ];
